@@ -3,19 +3,20 @@
 From MJ Require Import Common.Base C05.Model C05.Spec C05.Proofs.
 Local Open Scope nat_scope.
 
-(* The verified checker (translation validation): if [check_ann] accepts an instruction
-   stream with an annotation, then from every entry point (template body, every macro
-   body), along EVERY control-flow path - not only those some context happens to take -
-   nothing is discarded that the path did not create (no frame of the wrong kind, no
-   missing capture / auto-escape entry / operand), the run never leaves the stream, every
-   end (end of stream, Return) is reached with scope, capture depth, auto-escape depth and
-   operand stack exactly as at entry, and the shape at a program point does not depend on
-   the path that led there.  The checker is extracted and run on the REAL instruction
-   streams the current compiler produces. *)
+(* The verified checker (translation validation), one activation, calls summarised: if
+   [check_ann] accepts an instruction stream with an annotation, then from every entry point
+   (template body, every macro body), along EVERY control-flow path - not only those some
+   context happens to take - nothing is discarded that the path did not create (no frame of the
+   wrong kind, no missing capture / auto-escape entry / operand), the run never leaves the
+   stream, every end (end of stream, Return) is reached with scope, capture depth and
+   auto-escape depth as at entry and NO operand left, and the shape at a program point -
+   operand stack included, exactly - does not depend on the path that led there.  The checker
+   is extracted and run on the REAL instruction streams the current compiler produces. *)
 Theorem check_ann_sound : forall C A entries, check_ann C A entries = true -> balanced C entries.
 Proof. exact check_ann_sound_proof. Qed.
+Check check_ann_sound : forall C A entries, check_ann C A entries = true -> balanced C entries.
 
-(* the verdict used by the check is an instance: acceptance means the inferred annotation checked *)
+(* the entry-point verdict is an instance: acceptance means the inferred annotation checked *)
 Theorem verdict_sound : forall C entries, verdict C entries = None -> balanced C entries.
 Proof.
   intros C entries H. unfold verdict in H.
@@ -23,17 +24,86 @@ Proof.
   - eapply check_ann_sound_proof; eassumption.
   - destruct (first_bad _ _); discriminate.
 Qed.
+Check verdict_sound : forall C entries, verdict C entries = None -> balanced C entries.
+
+(* Recursive loops, interprocedurally.  [check_rec] = the entry-point analysis plus, for every
+   recursive PushLoop p and every call site (r, cap) of the stream, the analysis of ONE
+   activation of that loop started by that site, relative to the caller: entered at p + 1 with
+   one loop frame that remembers (r, cap), one capture iff cap, nothing else; PopLoopFrame on
+   that frame must - after the pops the VM performs there - leave no frame, no capture beyond
+   the call's own, no auto-escape entry and no operand, and nothing else may end the activation.
+   If it accepts, the REAL machine - where a call jumps into any recursive loop of the stream
+   with the caller's whole state underneath, to any depth, and PopLoopFrame returns to the
+   remembered pc - is never stuck, never leaves the stream, and ends every evaluation with no
+   frame, capture, auto-escape entry or operand left.  No bound on the recursion depth. *)
+Theorem check_rec_sound : forall C Am Ar entries, check_rec C Am Ar entries = true -> rbalanced C entries.
+Proof. exact check_rec_sound_proof. Qed.
+Check check_rec_sound : forall C Am Ar entries, check_rec C Am Ar entries = true -> rbalanced C entries.
+
+Theorem verdict_rec_sound : forall C entries, verdict_rec C entries = None -> rbalanced C entries.
+Proof.
+  intros C entries H. unfold verdict_rec in H.
+  destruct (check_rec C (annotate C entries) (annotate_regions C) entries) eqn:E.
+  - eapply check_rec_sound_proof; eassumption.
+  - destruct (verdict C entries); [discriminate|]. destruct (first_bad_region _ _ _); discriminate.
+Qed.
+Check verdict_rec_sound : forall C entries, verdict_rec C entries = None -> rbalanced C entries.
 
 (* Non-vacuity and the known refutation: the stream codegen.rs emitted BEFORE the fix for
    `for{with{break}}` is rejected, the fixed stream is accepted. *)
 Definition before_fix : list instr :=
-  [IStack 0 1; IPushLoop; IIterate 9; IStack 1 0; IPushWith; IJump 9; IPopFrame; IJump 2; IStack 0 0; IPopLoopFrame].
+  [IStack 0 1; IPushLoop false; IIterate 9; IStack 1 0; IPushWith; IJump 9; IPopFrame; IJump 2; IStack 0 0; IPopLoopFrame 0].
 Definition after_fix : list instr :=
-  [IStack 0 1; IPushLoop; IIterate 9; IStack 1 0; IPushWith; IPopFrame; IJump 9; IPopFrame; IJump 2; IPopLoopFrame].
+  [IStack 0 1; IPushLoop false; IIterate 9; IStack 1 0; IPushWith; IPopFrame; IJump 9; IPopFrame; IJump 2; IPopLoopFrame 0].
 Example break_in_with_refuted_before_fix : verdict before_fix [(0, shape0)] = Some 2.
 Proof. vm_compute. reflexivity. Qed.
 Example break_in_with_accepted_after_fix : verdict after_fix [(0, shape0)] = None.
 Proof. vm_compute. reflexivity. Qed.
 
+(* A real recursive stream: `{% for n in tree recursive %}{{ n.name ~ loop(n.children) }}{% else %}-{% endfor %}|after`
+   as compiled by the current compiler (Lookup PushLoop(3) Iterate StoreLocal Lookup GetAttr Lookup GetAttr
+   CallFunction(loop,1) StringConcat Emit Jump PushDidNotIterate PopLoopFrame JumpIfFalse EmitRaw EmitRaw): a loop with an
+   else block whose recursion call sits in value position.  With the pop of the did-not-iterate flag the VM performs
+   since commit 696a661 ([rec_else 1]) it is accepted - one region analysis, entered with a capture; with the VM as
+   it was before ([rec_else 0]: the flag stays between the operands of `~`) the region analysis rejects it at the
+   PopLoopFrame. *)
+Definition rec_else (ret_pops : nat) : list instr :=
+  [IStack 0 1; IPushLoop true; IIterate 12; IStack 1 0; IStack 0 1; IStack 1 1; IStack 0 1; IStack 1 1;
+   ICall false; IBin; IStack 1 0; IJump 2; IDidNotIterate; IPopLoopFrame ret_pops; IJumpIfFalse 16; IStack 0 0; IStack 0 0].
+Example rec_else_regions : regions (rec_else 1) = [(1, (9, true))].
+Proof. vm_compute. reflexivity. Qed.
+Example rec_else_accepted : verdict_rec (rec_else 1) [(0, shape0)] = None.
+Proof. vm_compute. reflexivity. Qed.
+Example rec_else_rejected_without_pop : verdict_rec (rec_else 0) [(0, shape0)] = Some (1, 13).
+Proof. vm_compute. reflexivity. Qed.
+(* the entry-point analysis alone (calls summarised) cannot see it *)
+Example rec_else_summary_blind : verdict (rec_else 0) [(0, shape0)] = None.
+Proof. vm_compute. reflexivity. Qed.
+(* and the real machine does get stuck / unbalanced there: two levels of recursion, then the return
+   leaves the flag under the result *)
+Example rec_else_real_run_unbalanced :
+  exists c, rstar (rec_else 0) (0, shape0) c /\ fst c = 9 /\ stk (snd c) = [V; V; V].
+Proof.
+  eexists. split.
+  - eapply rstar_step. eapply rstar_step. eapply rstar_step. eapply rstar_step. eapply rstar_step.
+    eapply rstar_step. eapply rstar_step. eapply rstar_step. eapply rstar_step. eapply rstar_step.
+    eapply rstar_step. eapply rstar_step. apply rstar_refl.
+    + (* 0 *) eapply (rstep_intro _ 0); [reflexivity|reflexivity|left; reflexivity].
+    + (* 1 PushLoop *) eapply (rstep_intro _ 1); [reflexivity|reflexivity|left; reflexivity].
+    + (* 2 Iterate: an item *) eapply (rstep_intro _ 2); [reflexivity|reflexivity|left; reflexivity].
+    + eapply (rstep_intro _ 3); [reflexivity|reflexivity|left; reflexivity].
+    + eapply (rstep_intro _ 4); [reflexivity|reflexivity|left; reflexivity].
+    + eapply (rstep_intro _ 5); [reflexivity|reflexivity|left; reflexivity].
+    + eapply (rstep_intro _ 6); [reflexivity|reflexivity|left; reflexivity].
+    + eapply (rstep_intro _ 7); [reflexivity|reflexivity|left; reflexivity].
+    + (* 8 the call enters the loop *) eapply (rstep_intro _ 8); [reflexivity|reflexivity|right; left; reflexivity].
+    + (* 2 Iterate: the children are empty *) eapply (rstep_intro _ 2); [reflexivity|reflexivity|right; left; reflexivity].
+    + (* 12 PushDidNotIterate *) eapply (rstep_intro _ 12); [reflexivity|reflexivity|left; reflexivity].
+    + (* 13 PopLoopFrame returns to 9 *) eapply (rstep_intro _ 13); [reflexivity|reflexivity|left; reflexivity].
+  - split; reflexivity.
+Qed.
+
 Print Assumptions check_ann_sound.
 Print Assumptions verdict_sound.
+Print Assumptions check_rec_sound.
+Print Assumptions verdict_rec_sound.
